@@ -140,6 +140,67 @@ def run(ctx):
                     if back != want:
                         ctx.fail(f"alias text {txt!r} parsed to {back}, expected {G.ty_str(want, spec)}", {"check": "alias"},
                             {"lang": spec.to_json(), "text": txt})
+                if not has_op(body, G.UNIT) and not any(has_op(f, G.UNIT) for f in fixed):
+                    alias_context_cases(ctx, li, spec, ops, lang2, body, c, pos, fixed, ar)
+
+
+def alias_context_cases(ctx, li, spec, ops, lang2, body, c, pos, fixed, ar):
+    """aliases in every syntactic context: operator parameters, either operand of a product (bracketed or at top level), nested"""
+    rng = ctx.rng
+
+    def gen(depth):
+        """(text, data) of a sugared type"""
+        r = rng.random()
+        comps = [k for k in spec.compounds(builtin=False)]
+        if r < 0.2:
+            return "Syn", body
+        if r < 0.45:
+            at, ad = gen(depth - 1) if depth > 0 else leaf()
+            return f"PSyn({at})", (c, tuple(ad if i == pos else fixed[i] for i in range(ar)))
+        if r < 0.65 and depth > 0:
+            (at, ad), (bt, bd) = gen(depth - 1), gen(depth - 1)
+            return f"({at} * {bt})", (G.PROD, (ad, bd))
+        if r < 0.85 and depth > 0 and comps:
+            k = rng.choice(comps)
+            parts = [gen(depth - 1) for _ in range(spec.arity(k))]
+            return spec.name(k) + "(" + ", ".join(p[0] for p in parts) + ")", (k, tuple(p[1] for p in parts))
+        return leaf()
+
+    def leaf():
+        b = spec.bases()
+        t = (rng.choice(b), ()) if b else (G.TOP, ())
+        return spec.name(t[0]), t
+    ctx.setup("(aliases (Syn 0 " + term_sexp(body) + ") (PSyn 1 " + term_sexp((c, tuple(('v', 0) if i == pos else fixed[i] for i in range(ar)))) + "))", "ok")
+    for _ in range(25 if ctx.tier == "quick" else 120):
+        txt, want = gen(2)
+        if rng.random() < 0.3:
+            # a product at the top level, without brackets
+            (at, ad), (bt, bd) = gen(1), gen(1)
+            txt, want = f"{at} * {bt}", (G.PROD, (ad, bd))
+        if has_op(want, G.UNIT):
+            continue
+        try:
+            back = G.py_to_data(lang2.parse_type(txt), ops)
+            ob = "ok " + G.ty_sexp(back)
+        except Exception as e:  # noqa
+            back = "E:" + type(e).__name__
+            ob = back
+        ctx.case(f"(ptype {G.str_sexp(txt)})", ob, {"lang": spec.to_json(), "op": "parse_type with aliases", "text": txt},
+            nontrivial="Syn" in txt, key=(li, "alias-ctx", txt))
+        ctx.count("alias_context")
+        if back != want:
+            ctx.fail(f"type text {txt!r} (aliases Syn = {G.ty_str(body, spec)}, PSyn(x) = {spec.name(c)}(...x at {pos}...)) parsed to "
+                     f"{back if isinstance(back, str) else G.ty_str(back, spec)}, its definition-expanded form is {G.ty_str(want, spec)}",
+                {"check": "alias"}, {"lang": spec.to_json(), "text": txt})
+    ctx.setup("(aliases)", "ok")
+
+
+def term_sexp(t):
+    if t[0] == 'v':
+        return f"(v {t[1]})"
+    if not t[1]:
+        return f"({t[0]})"
+    return "(" + str(t[0]) + " " + " ".join(term_sexp(a) for a in t[1]) + ")"
 
 
 def has_op(t, o):
